@@ -8,6 +8,7 @@ from scipy.sparse import issparse
 
 from skglm.solvers import BaseSolver
 from skglm.utils.validation import check_attrs
+from skglm import _verif
 
 
 class LBFGS(BaseSolver):
@@ -63,6 +64,9 @@ class LBFGS(BaseSolver):
             # save p_obj
             p_obj = objective(w_k)
             p_objs_out.append(p_obj)
+            if _verif.ON:
+                _verif.emit("record", t=len(p_objs_out) - 1, p_obj=p_obj, w=w_k,
+                            Xw=None)
 
             if self.verbose:
                 grad = jac(w_k)
@@ -78,6 +82,9 @@ class LBFGS(BaseSolver):
         w = np.zeros(n_features) if w_init is None else w_init
         jac = s_jac if issparse(X) else d_jac
         p_objs_out = []
+        if _verif.ON:
+            _verif.emit("init", solver=self, X=X, y=y, datafit=datafit,
+                        penalty=penalty, w=w, Xw=None)
 
         result = scipy.optimize.minimize(
             fun=objective,
